@@ -13,6 +13,7 @@ import (
 
 	"github.com/verily-src/fhirpath-go/fhirpath/zzverif/lib"
 	"google.golang.org/protobuf/proto"
+	"google.golang.org/protobuf/reflect/protoreflect"
 )
 
 type resRec struct {
@@ -26,6 +27,7 @@ type caseRec struct {
 	Kind  string          `json:"kind"`
 	Steps json.RawMessage `json:"steps"`
 	Text  string          `json:"text"`
+	Raw   map[string]json.RawMessage
 }
 
 func main() {
@@ -37,6 +39,8 @@ func main() {
 		gen(os.Args[2], os.Args[3])
 	case "run":
 		run(os.Args[2], os.Args[3], os.Args[4])
+	case "types":
+		typeTable(os.Args[2])
 	default:
 		lib.Fatal("unknown subcommand")
 	}
@@ -104,7 +108,7 @@ func gen(treesPath, resPath string) {
 		if err != nil {
 			lib.Fatal("annotate %s: %v", id, err)
 		}
-		if err := tw.Write(map[string]any{"id": id, "tree": an.Root, "sch": lib.SchemaOfTree(an.Root)}); err != nil {
+		if err := tw.Write(map[string]any{"id": id, "tree": an.Root, "sch": lib.SchemaOfTree(an.Root), "sel": selectNodes(an.Root)}); err != nil {
 			lib.Fatal("%v", err)
 		}
 		if err := rw.Write(resRec{ID: id, JSON: an.JSON}); err != nil {
@@ -162,7 +166,10 @@ func run(resPath, casesPath, obsPath string) {
 		if err := json.Unmarshal(b, &c); err != nil {
 			return err
 		}
-		c.Steps = append(json.RawMessage{}, c.Steps...)
+		if err := json.Unmarshal(b, &c.Raw); err != nil {
+			return err
+		}
+		delete(c.Raw, "text")
 		cases = append(cases, c)
 		return nil
 	}); err != nil {
@@ -193,12 +200,81 @@ func run(resPath, casesPath, obsPath string) {
 				it["tvs"] = tvs
 			}
 		}
-		rec := map[string]any{"id": c.ID, "ti": c.Ti, "kind": c.Kind, "steps": c.Steps, "src": c.Text, "out": out}
+		rec := map[string]any{}
+		for k, v := range c.Raw {
+			rec[k] = v
+		}
+		rec["src"], rec["out"] = c.Text, out
 		if err := w.Write(rec); err != nil {
 			lib.Fatal("%v", err)
 		}
 	})
 	if err := w.Close(); err != nil {
+		lib.Fatal("%v", err)
+	}
+}
+
+// selectNodes picks the nodes the type checks (C12) look at: the first node of
+// every distinct message type, plus up to three nodes reached through a choice.
+// This is input selection only; what is expected of them is decided by the specification.
+func selectNodes(root *lib.Node) [][]int {
+	out := [][]int{}
+	seen := map[string]bool{}
+	choices := 0
+	var walk func(n *lib.Node)
+	walk = func(n *lib.Node) {
+		key := n.Pn + "|" + n.Ty
+		if !seen[key] {
+			seen[key] = true
+			out = append(out, append([]int{}, n.Addr...))
+		} else if n.Ch && choices < 3 {
+			choices++
+			out = append(out, append([]int{}, n.Addr...))
+		}
+		for _, c := range n.Kids {
+			walk(c)
+		}
+	}
+	walk(root)
+	return out
+}
+
+// typeTable lists every top-level FHIR type reachable from the resources with its kind.
+func typeTable(path string) {
+	kinds := map[string]string{}
+	for _, t := range lib.ResourceTypes() {
+		var visit func(md protoreflect.MessageDescriptor)
+		visit = func(md protoreflect.MessageDescriptor) {
+			ty, k := lib.FHIRTypeOf(md)
+			_, nested := md.Parent().(protoreflect.MessageDescriptor)
+			if !nested && (k == "resource" || k == "complex" || k == "prim") && md.Name() != "ContainedResource" && md.Name() != "ReferenceId" {
+				if _, ok := kinds[ty]; ok {
+					return
+				}
+				kinds[ty] = k
+			} else if nested {
+				key := "~" + lib.ProtoName(md)
+				if _, ok := kinds[key]; ok {
+					return
+				}
+				kinds[key] = "nested"
+			}
+			for i := 0; i < md.Fields().Len(); i++ {
+				if m := md.Fields().Get(i).Message(); m != nil && m.FullName() != "google.protobuf.Any" {
+					visit(m)
+				}
+			}
+		}
+		visit(lib.ResourceDescriptor(t))
+	}
+	out := map[string]string{}
+	for k, v := range kinds {
+		if v != "nested" {
+			out[k] = v
+		}
+	}
+	b, _ := json.Marshal(out)
+	if err := os.WriteFile(path, b, 0o644); err != nil {
 		lib.Fatal("%v", err)
 	}
 }
